@@ -1775,6 +1775,15 @@ class Interp:
         if isinstance(e.func, ast.Attribute) and isinstance(e.func.value, ast.Name):
             if e.func.value.id in ("logger", "warnings", "logging"):
                 return None
+        if (isinstance(e.func, ast.Name) and e.func.id == "zip" and len(e.args) == 1 and isinstance(e.args[0], ast.Starred)
+                and not e.keywords):
+            # zip(*pairs) over a stub that knows its own columns
+            sv = self.eval(e.args[0].value, env)
+            h = getattr(sv, "pyvc_unzip", None)
+            if h is not None:
+                return h(self)
+            fn = self.eval(e.func, env)
+            return self.call(fn, list(self.iter_concrete(sv)), {}, e)
         fn = self.eval(e.func, env)
         args = []
         for a in e.args:
